@@ -107,9 +107,49 @@ func runPermits(o *Out, r *rand.Rand, thorough bool, _ []string) {
 			fmt.Sprintf("res=%s free_in=%d free_out=%d", strings.Join(append([]string{"-"}, res...), ","), fi, fo))
 	}
 
-	// (2) outbound offers against scripted replies: every outcome must give the slot back
 	mn := newMemNet()
 	limit := 3
+	// (1b) inbound offers that were accepted: the slot is held while the node waits for the announced connection and is
+	// given back when the peer never opens it (15 s connect timeout - collected at the end of the run), when the node is
+	// stopped while waiting, and for an offer that arrives after the stop
+	allRadius := new(uint256.Int).SetAllOne()
+	inboundOffer := func(n *realNode, version uint8, tag byte) string {
+		asker := signRecPad(keyFromSeed(r), net.IP{34, 9, tag, byte(1 + r.Intn(200))}, 7200, 1, 0)
+		n.p.VerifVersionsCacheSet(asker, version)
+		var keys [][]byte
+		for len(keys) < 2 {
+			key := make([]byte, 14)
+			r.Read(key)
+			idh := sha256.Sum256(key)
+			if portalwire.VerifInRange(n.p.Self().ID(), allRadius, idh[:]) {
+				keys = append(keys, key)
+			}
+		}
+		resp, err := n.p.VerifHandleOffer(asker, &net.UDPAddr{IP: asker.IP(), Port: 7200}, &portalwire.Offer{ContentKeys: keys})
+		if err != nil {
+			return "error"
+		}
+		return strings.Fields(decodeAccept(version, resp, 2))[1] // conn=0|1
+	}
+	silentNode := startNode(mn, r, nodeOpts{ip: net.IP{34, 5, 6, 1}, port: 9810, versions: []uint8{0, 1}, utpLimit: limit, noWorkers: true,
+		store: &radiusStore{db: map[string][]byte{}, radius: allRadius}})
+	silentAcc := inboundOffer(silentNode, 1, 1) + "," + inboundOffer(silentNode, 0, 2)
+	silentT0 := time.Now()
+	o.Case(fmt.Sprintf("inbound kind=pending limit=%d n=2", limit), fmt.Sprintf("%s free=%d", silentAcc, freeSlots(silentNode, true, limit)))
+	{
+		sn := startNode(mn, r, nodeOpts{ip: net.IP{34, 5, 6, 2}, port: 9811, versions: []uint8{0, 1}, utpLimit: limit, noWorkers: true,
+			store: &radiusStore{db: map[string][]byte{}, radius: allRadius}})
+		acc := inboundOffer(sn, 1, 3) + "," + inboundOffer(sn, 0, 4)
+		sn.stop()
+		free := waitFree(sn, true, limit, 2*time.Second)
+		o.Case(fmt.Sprintf("inbound kind=stop_while_waiting limit=%d n=2", limit), fmt.Sprintf("%s free=%d", acc, free))
+		// the talk handler stays registered: an offer after the stop still takes the accept path
+		acc = inboundOffer(sn, 1, 5)
+		free = waitFree(sn, true, limit, 2*time.Second)
+		o.Case(fmt.Sprintf("inbound kind=offer_after_stop limit=%d n=1", limit), fmt.Sprintf("%s free=%d", acc, free))
+	}
+
+	// (2) outbound offers against scripted replies: every outcome must give the slot back
 	a := startNode(mn, r, nodeOpts{ip: net.IP{34, 5, 5, 1}, port: 9800, versions: []uint8{0, 1}, utpLimit: limit, noWorkers: true})
 	b := startNode(mn, r, nodeOpts{ip: net.IP{34, 6, 6, 1}, port: 9801, versions: []uint8{0, 1}, utpLimit: limit})
 	a.p.AddEnr(b.p.Self())
@@ -269,6 +309,13 @@ func runPermits(o *Out, r *rand.Rand, thorough bool, _ []string) {
 		o.Case(fmt.Sprintf("e2e limit=%d rounds=%d", limit, rounds), fmt.Sprintf("free_out=%d free_in=%d sent_ge1=%d arrived_ge1=%d", fo, fi, b2i(sent > 0), b2i(arrived > 0)))
 		c.stop()
 	}
+	// (1b, continued) the peers of the two pending inbound offers never opened their connections: after the connect
+	// timeout both slots must be back
+	if d := 15500*time.Millisecond - time.Since(silentT0); d > 0 {
+		time.Sleep(d)
+	}
+	o.Case(fmt.Sprintf("inbound kind=peer_silent limit=%d n=2", limit), fmt.Sprintf("%s free=%d", silentAcc, waitFree(silentNode, true, limit, 3*time.Second)))
+	silentNode.stop()
 	a.stop()
 	b.stop()
 	_ = enode.ID{}
